@@ -40,6 +40,7 @@ def pool():
         mk(11, Y, unified=True, additional_variants=["Client"]),       # collides with U
         mk(12, X, unified=True, additional_variants=["Server", "Client"]),   # caller-ordered list: not the identity of #10
         mk(13, dict(X, md5="c" * 32)),                                 # identity of A, checksums a strict SUPERSET of A's
+        mk(14, {"md5": "e" * 32}),                                     # identity of A, no checksum type in common with A
     ]
 
 
